@@ -53,9 +53,9 @@ def run(ctx, report: Report) -> None:
         'arithmetic. R5 evaluates the decision part of match_range over every relative order of (min, max, value) '
         'and None-ness - the code touches these values only through <, > and `is None`, so the finite set of '
         'orderings is exhaustive.')
-    report.not_decided = ('ISO-8601 week counts (52/53) per year - the existing test-suite pins the over-acceptance '
-                          'of week 53 (1980-W53, 2005-W53 are used as valid), see DESIGN.md; numeric conversion '
-                          'results of int()/float().')
+    report.not_decided = ('numeric conversion results of int()/float() beyond the language inclusion of R6; week strings are decided for the '
+                          'years R9 enumerates (a 400-year cycle and boundary years), the over-acceptance of week 53 that the existing '
+                          'test-suite pins is a recorded finding.')
     report.trusted_base = ['re._parser.parse', 'HTML Standard microsyntax grammars transcribed in the rule pack',
                            'proleptic Gregorian month lengths and leap rule transcribed in the rule pack']
     mmod = src.mod('css_match')
@@ -337,6 +337,73 @@ def run(ctx, report: Report) -> None:
     from .e2ematch import range_pipeline_table
     range_pipeline_table(ctx, r8)
 
+    # ---- R9 (Inputs.parse_value by interpretation; every year of the 400-year cycle) ------------------------------------------------
+    r9 = report.rule('C18-R9', 'week strings: weeks 1-52 of every year and week 53 of the ISO long years are valid, weeks 0 and 54 never', floor=400)
+    week_count_table(ctx, r9)
+
+
+
+def iso_long_year(y: int) -> bool:
+    """ISO 8601: a year has 53 weeks exactly when 1 January or 31 December is a Thursday (transcribed; trusted base)."""
+    p = lambda n: (n + n // 4 - n // 100 + n // 400) % 7        # noqa: E731   weekday of 31 December (0 = Sunday)
+    return p(y) == 4 or p(y - 1) == 3
+
+
+WEEK53_KNOWN = 'week 53 of the short years whose 31 December lies in week 1 of the next year (1980-W53, 2018-W53, ...) is accepted'
+
+
+def week_count_table(ctx, rule):
+    """Inputs.parse_value('week', 'YYYY-Www') by interpretation (the analyser's regex matcher, datetime as the library defines it)
+    for every year of a 400-year cycle and years outside datetime's range, weeks 00, 01, 52, 53, 54."""
+    from ..interp import Raised, call_function
+    years = list(range(2000, 2400)) + [0, 1, 4, 999, 1000, 1976, 1980, 9999, 10000, 12004, 99999, 400000]
+    opts = {'regex_engine': True, 'max_steps': 2_000_000}
+    under = over = None
+    over_years, expected_over = [], []
+    for y in years:
+        long_ = iso_long_year(y)
+        for w in (0, 1, 26, 52, 53, 54):
+            text = f'{y:04d}-W{w:02d}'
+            try:
+                res = call_function(ctx, 'css_match.Inputs.parse_value', ['week', text], {}, {}, None, dict(opts))
+                got = res is not None
+            except Raised as e:
+                got = f'raises {e.exc_name}'
+            except miniev.Unsupported as e:
+                raise AnalysisError(f'Inputs.parse_value("week", {text!r}): outside the evaluable fragment: {e}')
+            want = 1 <= w <= (53 if long_ else 52) and y >= 1          # year 0000 is not a valid year of a week string
+            rule.instance({'week_string': text, 'iso_weeks_in_year': 53 if long_ else 52, 'valid_by_iso': want, 'treated_as_valid': got},
+                          key=f'week|{text}', sample_cap=6)
+            if got is True and not want:
+                if w == 53 and y >= 1:
+                    over_years.append(y)
+                elif over is None and y >= 1:
+                    over = (text, got, want)
+            elif got is not True and want and under is None:
+                under = (text, got, want)
+        # the years for which the recorded defect is expected: 31 December is Monday .. Wednesday (ISO week 1 of the next year)
+        dec31 = (y + y // 4 - y // 100 + y // 400) % 7
+        if not long_ and dec31 in (1, 2, 3) and y >= 1:
+            expected_over.append(y)
+    rule.obligation(under is None and over is None)
+    if under is not None:
+        text, got, want = under
+        rule.violation(f'week string {text}', 'soupsieve/css_match.py (Inputs.parse_value / validate_week)',
+                       f'the valid week string {text!r} is {"rejected" if got is False else got} (ISO 8601 gives that year {text[-2:] if False else ("53" if iso_long_year(int(text.split("-")[0])) else "52")} weeks): '
+                       f'a min / max / value of that week is ignored')
+    if over is not None:
+        text, got, want = over
+        rule.violation(f'week string {text}', 'soupsieve/css_match.py (Inputs.parse_value / validate_week)', f'the invalid week string {text!r} is treated as valid')
+    if over_years:
+        if sorted(over_years) == sorted(expected_over):
+            rule.violation(WEEK53_KNOWN, 'soupsieve/css_match.py (Inputs.validate_week)',
+                           f'{len(over_years)} of {len(years)} years examined: {WEEK53_KNOWN} - e.g. {[f"{y:04d}-W53" for y in sorted(over_years)[:4]]}; '
+                           f'ISO 8601 gives those years 52 weeks')
+        else:
+            odd = sorted(set(over_years) ^ set(expected_over))[0]
+            rule.violation(f'week string {odd:04d}-W53', 'soupsieve/css_match.py (Inputs.validate_week)',
+                           f'week 53 is accepted for {len(over_years)} short years, not the set of the recorded finding; e.g. {odd:04d}-W53 is '
+                           f'{"accepted" if odd in over_years else "now rejected while its siblings are accepted"}')
 
 
 def parse_value_types(ctx, candidates, uses=None):
